@@ -17,6 +17,7 @@
 (* (Internal, silent).  Acceptance by high-water mark (TLCSet register 1). *)
 (***************************************************************************)
 EXTENDS KeysIO, Json, TLCExt
+ScriptsAny == { <<"E">> }
 VARIABLE l
 tvars == <<vars, l>>
 TraceLog == ndJsonDeserialize("trace.ndjson")
@@ -26,27 +27,30 @@ Mark == TLCSet(1, IF TLCGet(1) > l + 1 THEN TLCGet(1) ELSE l + 1)
 
 TInit == /\ Init /\ l = 1 /\ TLCSet(1, 1)
 
-TCase == /\ Is("case") /\ Mark
+TCase == /\ Is("case")
          /\ script' = Ev.script
-         /\ q' = <<>> /\ held' = 0 /\ typed' = 0 /\ rq' = <<>> /\ cq' = <<>> /\ buf' = <<>>
+         /\ q' = <<>> /\ held' = 0 /\ typed' = 0 /\ rq' = <<>> /\ handoff' = FALSE /\ cq' = <<>> /\ buf' = <<>>
          /\ waiting' = FALSE /\ reading' = FALSE /\ gen' = 0
          /\ mpc' = "refresh" /\ mnext' = "wait" /\ mrd' = <<>> /\ mgen' = 0
          /\ apc' = [a \in Aux |-> "idle"] /\ agen' = [a \in Aux |-> 0] /\ started' = 0
          /\ line' = <<>> /\ sched' = <<>>
+         /\ Mark
 
-TEnv == /\ Is("env") /\ Mark /\ Quiescent
+TEnv == /\ Is("env") /\ Quiescent
         /\ CASE Ev.a = "type"  -> EnvType
              [] Ev.a = "reply" -> EnvReply(Ev.n, Ev.pos)
              [] Ev.a = "aux"   -> EnvAux
+        /\ Mark
 
-TSettle == /\ Is("settle") /\ Mark /\ Quiescent
+TSettle == /\ Is("settle") /\ Quiescent
            /\ mpc = Ev.m
            /\ held = Ev.held
            /\ Len(Ev.aux) = started
            /\ \A a \in 1..started : apc[a] = Ev.aux[a]
            /\ Ev.head = (IF rq = <<>> THEN -1 ELSE Head(rq))
-           /\ (mpc = "returned" => line = Ev.line)
+           /\ (mpc = "returned" => SelectSeq(line, LAMBDA i : script[i] # "V") = Ev.line)
            /\ UNCHANGED vars
+           /\ Mark
 
 TSilent == Internal /\ UNCHANGED l
 
